@@ -67,6 +67,40 @@ def run(run):
                                   dict(rule_file=text, extracted=qtext, path=name, first_difference=next(((a, b) for a, b in zip(lx.get("tokens", []), want_tokens) if a != b), None)))
             if i < 2:
                 run.sample(dict(rule_file=text, metadata=meta))
+        # a whole query on one very long physical line (two sizes: > 4 KiB in 12 byte-shifted variants, > 64 KiB once)
+        for nconj, shifts in ((330, range(12)), (4800, (0,))):
+            q = QG.random_query(rng, kinds=kinds, values=proj.values, depth=1, n_preds=0, n_entities=1, where=True)
+            if q.cond is None:
+                continue
+            a0 = q.from_items[0][1]
+            si = q.kinds.index("'SELECT'") if "'SELECT'" in q.kinds else q.kinds.index("SELECT")
+            pad_l, pad_k = [], []
+            for j in range(nconj):
+                pad_l += ["&&", a0, ".", "getName", "(", ")", "!=", '"zq%05d"' % j]
+                pad_k += ["'&&'", "IDENTIFIER", "'.'", "IDENTIFIER", "'('", "')'", "'!='", "STRING"]
+            wi = q.kinds.index("'WHERE'") if "'WHERE'" in q.kinds else q.kinds.index("WHERE")
+            lex = q.lexemes[:wi + 1] + ["("] + q.lexemes[wi + 1:si] + [")"] + pad_l + q.lexemes[si:]
+            knd = q.kinds[:wi + 1] + ["'('"] + q.kinds[wi + 1:si] + ["')'"] + pad_k + q.kinds[si:]
+            line = GQ.render_kinds(knd, lex)
+            want_tokens = [[k, t] for k, t in zip(knd, lex)]
+            for sh in shifts:
+                text = "/**\n * @id long/line\n */\n" + " " * sh + line + "\n"
+                path = os.path.join(tmp, "long.cql")
+                open(path, "wb").write(text.encode("utf-8"))
+                run.count(("long-line", nconj, sh))
+                stats["long_line_files"] += 1
+                rr = h.call(op="rule", text=text)
+                ex = h.call(op="extract", path=path)
+                for name, r_, qtext in (("ci", rr, (rr.get("rule") or {}).get("query")), ("query-file/scan", ex, ex.get("query"))):
+                    if r_.get("outcome") != "ok" or qtext is None:
+                        run.violation("C18:token-sequence:" + name, "the %s path cannot read a query written on one line of %d bytes: %s" % (name, len(line) + sh, r_.get("err") or r_.get("outcome")),
+                                      dict(line_bytes=len(line) + sh, path=name, header="@id long/line", query_head=line[:300]))
+                        continue
+                    lx = h.call(op="lex", q=qtext)
+                    if lx.get("errors") or lx.get("tokens") != want_tokens:
+                        run.violation("C18:token-sequence:" + name, "the query extracted by the %s path from one line of %d bytes is not the token sequence written in the file" % (name, len(line) + sh),
+                                      dict(line_bytes=len(line) + sh, path=name, query_head=line[:300],
+                                           first_difference=next(((a, b) for a, b in zip(lx.get("tokens", []), want_tokens) if a != b), None)))
         # the excluded point: a string literal that spans lines (as in the shipped BlowfishUsage.cql)
         ml = '/**\n * @id java/ml\n */\nFROM method_declaration AS md\nSELECT md.getName(), "first line\n    second  line"\n'
         for eol in ("\n", "\r\n"):
@@ -84,6 +118,10 @@ def run(run):
         # end to end on a few files: ci / scan / --query-file vs --query
         for i in range(3 if quick else 25):
             q = QG.random_query(rng, kinds=kinds, values=proj.values, depth=1, n_preds=rng.choice([0, 1]), n_entities=1)
+            while any("\n" in lx or "\r" in lx for lx in q.lexemes):
+                # a literal that spans lines is the recorded finding (checked above, token by token); end to end
+                # it would only show up again as a changed SELECT value
+                q = QG.random_query(rng, kinds=kinds, values=proj.values, depth=1, n_preds=rng.choice([0, 1]), n_entities=1)
             text, meta = GR.rule_file(rng, q)
             rdir = os.path.join(tmp, "rs%d" % i)
             os.makedirs(rdir)
